@@ -327,7 +327,7 @@ pub const fn relocation_from_raw(r_type: u32) -> Option<RelocationKindInfo> {
         object::elf::R_X86_64_64 => (RelocationKind::Absolute, RELOC_8_BYTE_UNSIGNED),
         object::elf::R_X86_64_PC32 => (RelocationKind::Relative, RELOC_4_BYTE_SIGNED),
         object::elf::R_X86_64_PC64 => (RelocationKind::Relative, RELOC_8_BYTE_SIGNED),
-        object::elf::R_X86_64_GOT32 => (RelocationKind::GotRelGotBase, RELOC_4_BYTE_UNSIGNED),
+        object::elf::R_X86_64_GOT32 => (RelocationKind::GotRelGotBase, RELOC_4_BYTE_SIGNED),
         object::elf::R_X86_64_GOT64 => (RelocationKind::GotRelGotBase, RELOC_8_BYTE_UNSIGNED),
         object::elf::R_X86_64_GOTOFF64 => (RelocationKind::SymRelGotBase, RELOC_8_BYTE_SIGNED),
         object::elf::R_X86_64_PLT32 => (RelocationKind::PltRelative, RELOC_4_BYTE_SIGNED),
